@@ -58,10 +58,17 @@ def forward_fields(ctx):
     written = set()
     kw = {}
     for e in ctors:
+        keys = set()
         for k in e.call.keywords:
             if k.arg:
-                written.add(k.arg)
-                kw[k.arg] = e.arg(kw=k.arg)
+                keys.add(k.arg)
+            else:
+                # ForwardOptions(**mapping built here)
+                rec = F.flow.record(k.value, e.fn, e.bind) or {}
+                keys |= {x for x in rec if x != '*'}
+        for k_ in keys:
+            written.add(k_)
+            kw[k_] = kw.get(k_, set()) | e.arg(kw=k_)
     # slots filled after construction: <x>.forward_opts.<slot>.extend(..)
     for e in F.effects(so, lambda e: e.name in ('extend', 'append',
                                                 'update', 'collect'),
@@ -140,19 +147,21 @@ def forward_fields(ctx):
         'forwarded requirements are not collected from the user\'s libs')
     # order: user libs first, forwarded libs after
     order_ok = False
-    for n in walk_no_nested(li.node):
+    for g_, b_ in F.frames(li, 0):
+      if g_.cls is not li.cls:
+          continue
+      for n in walk_no_nested(g_.node):
         if isinstance(n, ast.Assign) and any(
                 isinstance(t, ast.Attribute) and t.attr == 'libs'
                 for t in n.targets):
-            q = F.flow.sequence(n.value, li)
             v = n.value
             if isinstance(v, ast.BinOp) and isinstance(v.op, ast.Add):
-                l, r = F.atoms(v.left, li), F.atoms(v.right, li)
+                l, r = F.atoms(v.left, g_, b_), F.atoms(v.right, g_, b_)
                 order_ok = (has(l, 'user_libs') or param_of(l, 'libs')) and \
                     has(r, 'recurse()', 'libs') and not has(
                         l, 'recurse()')
             elif isinstance(v, ast.Call):
-                a = [F.atoms(x, li) for x in v.args]
+                a = [F.atoms(x, g_, b_) for x in v.args]
                 order_ok = len(a) >= 2 and has(a[0], 'user_libs') and has(
                     a[-1], 'recurse()', 'libs')
     ctx.ob(R, 'Link.__init__|dependents-before-dependencies', order_ok,
@@ -311,6 +320,17 @@ def rpath_origin(ctx):
         if has(pos_atoms, 'SharedLibrary'):
             ok = param_of(pos_atoms, 'raw_link') and has(
                 pos_atoms, 'library', 'creator')
+    if not ok:
+        # the same decision through a flag variable / conditional
+        # expression: whatever builds `[library.path]` is control-dependent
+        # on the SharedLibrary test, on raw_link and on library.creator
+        for n in ast.walk(ll.node):
+            if isinstance(n, ast.List) and len(n.elts) == 1 and direct(
+                    F.atoms(n.elts[0], ll)) == {'library.path'}:
+                c = F.control(n, ll)
+                if has(c, 'SharedLibrary') and param_of(c, 'raw_link') and \
+                        has(c, 'library', 'creator'):
+                    ok = True
     ctx.ob(R, 'CcLinker._link_lib|raw-path-only-for-own-shared-libs', ok,
            ll.node, 'a shared library that was not built here (no known '
            'soname) is linked by raw path')
